@@ -328,6 +328,31 @@ theorem C14_framing_independent (f : Framing) (tbl : Table) (k : Kind) (typ : St
 example : (forChildrenF .eof [⟨.msg, "chat", ⟨"", ""⟩⟩] .msg "chat"
     [.start ⟨"jabber:client", "message"⟩ [], .stop ⟨"jabber:client", "message"⟩] [2]).length = 1 := by decide
 
+/-! ### the payload handed to an IQ handler -/
+
+/-- **IQ payload**: the handler registered for the most specific pattern matching the IQ's first
+child element is given that element's start tag and reads exactly what follows it inside the
+IQ — never the IQ's own end tag — and an IQ whose payload no pattern of its type matches gets
+the defaults of `C14_iq_default` -/
+theorem C14_iq_payload (tbl : Table) (typ : String) (s e : Tok) (n : Name) (as : List Attr)
+    (rest : List Tok) (c : Nat) :
+    iqRoute tbl typ (s :: .start n as :: (rest ++ [e])) c =
+      match iqDispatch tbl typ n with
+      | .handler p => .handler p n (rest.take c)
+      | .fallback => .fallback
+      | .nothing => .nothing := by
+  have hd : (Tok.start n as :: (rest ++ [e])).dropLast = Tok.start n as :: rest := by
+    rw [← List.cons_append, List.dropLast_concat]
+  simp only [iqRoute, hd, List.dropWhile, isSpaceTok]
+  cases iqDispatch tbl typ n <;> rfl
+
+/-- whitespace before the payload is skipped, siblings after it stay readable -/
+example : iqRoute [⟨.iq, "get", ⟨"urn:a", ""⟩⟩] "get"
+    [.start ⟨"jabber:client", "iq"⟩ [], .chars " \n", .start ⟨"urn:a", "x"⟩ [], .stop ⟨"urn:a", "x"⟩,
+     .chars "tail", .stop ⟨"jabber:client", "iq"⟩] 9
+    = .handler ⟨.iq, "get", ⟨"urn:a", ""⟩⟩ ⟨"urn:a", "x"⟩ [.stop ⟨"urn:a", "x"⟩, .chars "tail"] := by
+  simp [iqRoute, iqDispatch, lookup, shapes, firstHit, isSpaceTok, List.dropLast, List.dropWhile]
+
 /-! ### tables probed on the real code -/
 
 set_option maxRecDepth 200000 in
